@@ -659,6 +659,11 @@ func Run(r *fw.Run) {
 			}
 		}
 	}
+	// blank lines inside a require block followed by leading comments of the next line
+	sds = append(sds,
+		"module example.com/m\n\ngo 1.21\n\nrequire (\n\ta.com/x v1.0.0 // s1\n\n\t// b2\n\tb.com/y v1.1.0 // s2\n)\n",
+		"module example.com/m\n\ngo 1.21\n\nrequire (\n\ta.com/x v1.0.0 // indirect\n\n\t// b2\n\t// b2b\n\tb.com/y v1.1.0 // indirect; s2\n\n\t// b3\n\tc.com/z v1.0.0\n)\n",
+		"module example.com/m\n\ngo 1.21\n\nrequire (\n\n\t// b1\n\ta.com/x v1.0.0\n\n\n\t// b2\n\tb.com/y v1.1.0\n)\n")
 	reqs := requests()
 	r.Bounds["require_lines_max"] = kmax
 	r.Bounds["seeds"] = len(sds)
